@@ -480,3 +480,4 @@ MANIFEST_ENTRY['text'] = MANIFEST_ENTRY['text'] + ' Resolution range: the source
 MANIFEST_ENTRY['note'] = 'Coverage and query in the same SRS, or related by an axis-aligned affine stub (reprojection is pyproj FFI: outside); polygon coverages as an L-shaped union of rectangles; configurations enumerated; client is a stub.'
 META['assumptions'] = list(META.get('assumptions', [])) + ["resolution range: 'the resolution of the request' is read per axis -- the source may only be contacted if neither axis resolution is excluded (the pinned behaviour)"]
 META['bounds'] = META.get('bounds', '') + '; stretched requests: both axis resolutions any real in [0.01, 10000]'
+MANIFEST_ENTRY['engine'] = 'E1+E2'
